@@ -31,7 +31,7 @@ def strategy(tier):
 
 
 def budget(tier):
-    return 12_000 if tier == "quick" else 400_000
+    return 30_000 if tier == "quick" else 400_000
 
 
 def _touching(case):
@@ -96,6 +96,9 @@ def evaluate(spec):
     allow = bool(spec.get("allow_after_full_delete"))
     r = Lm.execute(spec, allow_after_full_delete=allow)
     case, exp = r.case, r.exp
+    if r.excluded:
+        out.excluded = r.excluded
+        return out
     out.classes = classes(case, exp)
     out.nontrivial = _touching(case) or (bool(exp.deleted_blocks) and len(case.edits) >= 2)
     if r.error is not None:
